@@ -30,7 +30,7 @@ pub fn run(ctx: &mut Ctx) {
     let mut rng = ctx.rng("corr");
     let n = bi(&NLE);
     // ---------------- server: stored verifiers x adversarial A x presented proofs ----------------
-    let honest = login("Victim", "password", "victim", "PASSWORD", &rng.bytes(112)).expect("login");
+    let honest = login("Victim", "password", "victim", "PASSWORD", &rng.bytes(1024)).expect("login"); // a generous tape: an implementation that draws more than the pinned one must still get through the set-up
     let verifiers: Vec<([u8; 32], &str)> = vec![
         (honest.v, "honest verifier"), ([0u8; 32], "verifier 0"), (NLE, "verifier N"),
         (from_int(&(BigInt::from(2) * &n)), "verifier 2N mod 2^256"), ([0xff; 32], "verifier 2^256-1"),
@@ -65,11 +65,11 @@ pub fn run(ctx: &mut Ctx) {
     }
     // reconnect with arbitrary bytes
     let mut srv = honest.server.clone();
-    for _ in 0..(if ctx.quick() { 2000 } else { 1_000_000 }) {
+    for attempt in 1..=(if ctx.quick() { 2000u32 } else { 1_000_000 }) {
         let cd: [u8; 16] = match rng.below(3) { 0 => [0; 16], 1 => [0xff; 16], _ => rng.arr() };
         let pf: [u8; 20] = match rng.below(3) { 0 => [0; 20], 1 => [0xff; 20], _ => rng.arr() };
         ctx.oracle_runs += 1;
-        if catch(|| srv.verify_reconnection_attempt(cd, pf)).is_none() { ctx.fail("server_panic", format!("{{\"fn\":\"verify_reconnection_attempt\",\"client_data\":\"{}\",\"proof\":\"{}\"}}", hex(&cd), hex(&pf))); }
+        if catch(|| srv.verify_reconnection_attempt(cd, pf)).is_none() { ctx.fail("server_panic", format!("{{\"fn\":\"verify_reconnection_attempt\",\"attempt_number_on_this_session\":{},\"client_data\":\"{}\",\"proof\":\"{}\"}}", attempt, hex(&cd), hex(&pf))); }
     }
     // ---------------- client, built-in group: adversarial B, salt, M2 ----------------
     let mut cmodel = 0;
